@@ -158,9 +158,19 @@ def run(ctx):
     ex = [c for c in calls_in(ins) if isinstance(c.func, ast.Attribute) and c.func.attr == "execute"]
     ctx.check(len(ex) == 1 and len(ex[0].args) == 2, "R18.1", "db_insert_record:values-bound", "values are not passed as bound parameters", ins, "con.execute(sql, values)")
     pis = ctx.anchor_func("flow.record.adapter.sqlite.prepare_insert_sql")
-    ph = [st for st in walk_no_nested(pis) if isinstance(st, ast.Assign) and '"?"' in norm(st.value).replace("'", '"')]
-    ok = bool(ph) and "len(field_names)" in norm(ph[0].value)
-    ctx.check(ok, "R18.1", "prepare_insert_sql:placeholders", "the number of ? placeholders does not derive from the column tuple", pis, "'?' * len(field_names)")
+    fparam = func_params(pis)[1] if len(func_params(pis)) > 1 else "field_names"
+    # wherever the "?" placeholder is produced (a statement of its own or inside the final expression), it is repeated once per column:
+    # ["?"] * len(columns), "?" * len(columns), or one "?" per element of a comprehension over the columns
+    ok = False
+    for q in [n for n in ast.walk(pis) if isinstance(n, ast.Constant) and n.value == "?"]:
+        up = getattr(q, "_parent", None)
+        while up is not None and not isinstance(up, (ast.BinOp, ast.ListComp, ast.GeneratorExp, ast.stmt)):
+            up = getattr(up, "_parent", None)
+        if isinstance(up, ast.BinOp) and isinstance(up.op, ast.Mult) and f"len({fparam})" in (norm(up.left), norm(up.right)):
+            ok = True
+        if isinstance(up, (ast.ListComp, ast.GeneratorExp)) and len(up.generators) == 1 and norm(up.generators[0].iter) == fparam and not up.generators[0].ifs and up.elt is q:
+            ok = True
+    ctx.check(ok, "R18.1", "prepare_insert_sql:placeholders", "the number of ? placeholders does not derive from the column tuple", pis, "one '?' per element of the column tuple")
     # the statement executed for a record is prepared from THAT record's table name and slots (not handed in, not remembered per table name)
     icfg8 = CFG(ins)
     recp = func_params(ins)[1] if len(func_params(ins)) > 1 else "record"
